@@ -140,8 +140,8 @@ static inline u32 vp_ctlz32(u32 x){ u32 n=0; if(!x) return 32; while(!(x&0x80000
 static inline u64 vp_ctlz64(u64 x){ u64 n=0; if(!x) return 64; while(!(x&0x8000000000000000ull)){x<<=1;n++;} return n; }
 static inline u32 vp_cttz32(u32 x){ u32 n=0; if(!x) return 32; while(!(x&1)){x>>=1;n++;} return n; }
 static inline u64 vp_cttz64(u64 x){ u64 n=0; if(!x) return 64; while(!(x&1)){x>>=1;n++;} return n; }
-static inline u32 vp_ctpop32(u32 x){ u32 n=0; while(x){n+=x&1;x>>=1;} return n; }
-static inline u64 vp_ctpop64(u64 x){ u64 n=0; while(x){n+=x&1;x>>=1;} return n; }
+static inline u32 vp_ctpop32(u32 x){ x = x - ((x >> 1) & 0x55555555u); x = (x & 0x33333333u) + ((x >> 2) & 0x33333333u); x = (x + (x >> 4)) & 0x0f0f0f0fu; return (x * 0x01010101u) >> 24; }
+static inline u64 vp_ctpop64(u64 x){ return (u64)vp_ctpop32((u32)x) + (u64)vp_ctpop32((u32)(x >> 32)); }
 static inline u32 vp_bswap32(u32 x){ return (x>>24)|((x>>8)&0xff00)|((x<<8)&0xff0000)|(x<<24); }
 static inline void *vp_opaque_ptr(void){ return malloc(64); }
 
